@@ -38,3 +38,31 @@ package share
 //@   require GetNamespaceData public
 //@   require GetRange public
 //@ end
+
+// ---------------------------------------------------------------------------------------------
+// C12, producer side: the share-range proof handed to RPC clients. Row i of the result is proved by
+// the first-incomplete-row proof only for i == 0, by the last-incomplete-row proof only for the last
+// row of a multi-row range, and by a freshly generated whole-row proof for row startRow+i otherwise: a
+// proof object that happens to sit in an unused slot of the range data never reaches the client.
+// genProofOf: the proof GenerateSharesProofs builds (nmt tree construction, assumed).
+//@ pure func genProofOf(row int, fromCol int, toCol int, size int, rowShares []libshare.Share) *nmt.Proof
+//@ extern github.com/celestiaorg/celestia-node/share/shwap.GenerateSharesProofs
+//@   ensures err == nil ==> result0 != nil && result0 == genProofOf(row, fromCol, toCol, size, rowShares)
+//@ pure func extendedOf(s []libshare.Share) []libshare.Share
+
+//@ func newGetRangeResult
+//@   property C12
+//@   noframe
+//@   requires rngdata != nil && dah != nil
+//@   checks err == nil ==> numRows == len(rngdata.Shares) && numRows >= 1 && len(nmtProofs) == numRows
+//@   checks err == nil ==> forall i int :: 0 <= i && i < numRows ==> nmtProofs[i] == ((i == 0 && rngdata.FirstIncompleteRowProof != nil) ? rngdata.FirstIncompleteRowProof : ((i == numRows - 1 && i > 0 && rngdata.LastIncompleteRowProof != nil) ? rngdata.LastIncompleteRowProof : genProofOf(startRow + i, 0, odsSize, odsSize, extendedOf(rngdata.Shares[i]))))
+//@   loop 1: invariant -1 <= rangeindex && rangeindex < len(nmtProofs) && len(nmtProofs) == numRows && numRows == len(rngdata.Shares) && numRows >= 1 && isFresh(nmtProofs)
+//@   loop 1: invariant forall i int :: 0 <= i && i <= rangeindex ==> nmtProofs[i] == ((i == 0 && rngdata.FirstIncompleteRowProof != nil) ? rngdata.FirstIncompleteRowProof : ((i == numRows - 1 && i > 0 && rngdata.LastIncompleteRowProof != nil) ? rngdata.LastIncompleteRowProof : genProofOf(startRow + i, 0, odsSize, odsSize, extendedOf(rngdata.Shares[i]))))
+//@   loop 1: invariant forall i int :: rangeindex < i && i < numRows ==> nmtProofs[i] == (i == 0 ? rngdata.FirstIncompleteRowProof : ((i == numRows - 1 && startRow != endRow) ? rngdata.LastIncompleteRowProof : nil))
+//@   loop 1: invariant numRows == endRow - startRow + 1
+
+// (read-only helpers)
+//@ func toCoreNMTProof
+//@   property C12
+//@   trusted
+//@ extern (*github.com/celestiaorg/celestia-node/share/shwap.RangeNamespaceData).Flatten
